@@ -222,3 +222,6 @@ Proof.
   induction k as [|k IH]; intros i acc; cbn [for_loop repeat obind]; [rewrite app_nil_r; reflexivity|].
   rewrite IH, <- app_assoc. reflexivity.
 Qed.
+
+(* ---------------- (value1, value2, error) results: the second value and the error ---------------- *)
+Definition snd3 (o : option (Z * Z * Z)) : option (Z * Z) := option_map (fun '(_, tok, e) => (tok, e)) o.
